@@ -15,7 +15,7 @@ Proof. exact steps_closed. Qed.
 Print Assumptions C13_every_test_is_closed.
 
 (* Without --buffer an in-process run never replaces the streams; all output goes straight out. *)
-Theorem C13_unbuffered_untouched : forall t mid s, Forall is_mid mid -> cur s = false ->
+Theorem C13_unbuffered_untouched : forall t mid s, Forall is_mid mid -> cur s = false -> buf s = [] ->
   let s' := fold_left (bstep_apply false t) (BStart :: mid) s in
   cur s' = false /\ flatten_log (log s') = flatten_log (log s) ++ flat_map (vis t) mid.
 Proof. exact unbuffered_direct. Qed.
@@ -36,3 +36,9 @@ Theorem C13_failing_test_output_complete : forall t pre r rest s,
   flatten_log (log s) ++ (0, t) :: map (fun k => (1, k)) pre ++ flat_map (vis t) rest.
 Proof. exact failing_test_output_complete. Qed.
 Print Assumptions C13_failing_test_output_complete.
+
+(* Test code that puts the capture stream back itself (contextlib.redirect_stdout around a failing subtest) cannot leave
+   it installed: stopTest restores the originals.  (C13_streams_restored covers such tests: `closed` allows BReinstall.) *)
+Theorem C13_reinstall_is_undone : forall t s, cur (bstep_apply true t (bstep_apply true t s BReinstall) BStop) = false.
+Proof. exact reinstall_is_undone. Qed.
+Print Assumptions C13_reinstall_is_undone.
